@@ -48,24 +48,29 @@ def tree_hash() -> str:
     return h.hexdigest()[:24]
 
 
-def setup_environment() -> str:
+def setup_environment(prune=False) -> str:
     """Set the process environment *before* numba / the library is imported."""
     th = tree_hash()
     base = os.path.join(VERIF, ".cache", "numba")
     cache = os.path.join(base, th)
     os.makedirs(cache, exist_ok=True)
-    # keep the three most recent trees only (disk hygiene)
-    try:
-        sibs = sorted(
-            (d for d in os.listdir(base) if d != th),
-            key=lambda d: os.path.getmtime(os.path.join(base, d)),
-        )
-        import shutil
+    # disk hygiene, done by the parent process only: drop caches of trees that have not been used
+    # for more than six hours once there are more than 40 of them (never the one in use; several
+    # checks / scratch worktrees may run concurrently, so recently used siblings are kept)
+    if prune:
+        try:
+            os.utime(cache, None)
+            now = time.time()
+            sibs = [d for d in os.listdir(base) if d != th]
+            if len(sibs) > 40:
+                import shutil
 
-        for d in sibs[:-3]:
-            shutil.rmtree(os.path.join(base, d), ignore_errors=True)
-    except OSError:
-        pass
+                for d in sibs:
+                    p = os.path.join(base, d)
+                    if now - os.path.getmtime(p) > 6 * 3600:
+                        shutil.rmtree(p, ignore_errors=True)
+        except OSError:
+            pass
     os.environ["NUMBA_CACHE_DIR"] = cache
     os.environ.setdefault("NUMBA_NUM_THREADS", "1")
     os.environ.setdefault("OMP_NUM_THREADS", "1")
@@ -229,7 +234,7 @@ def main(argv=None):
         seed = 0
     os.environ["PYTHONHASHSEED"] = "0"
     t0 = time.time()
-    th = setup_environment()
+    th = setup_environment(prune=True)
     prop = args.prop.upper()
     mod_name = f"mc.props.{prop.lower()}"
     mod = importlib.import_module(mod_name)
